@@ -103,7 +103,7 @@ def make_snowing(case, prog=None):
         with os.fdopen(fd, "w") as f:
             yaml.safe_dump(yaml_dict(case), f)
         S = Snowing(k={"int": 0, "ext": 0, "s0": case["k_s0"], "s_sigma_rel": 0},
-                    opcond=make_opcond(prog or _program(case)), Nrep=1, configPath=path)
+                    opcond=make_opcond(prog or _program(case)), Nrep=int(case.get("Nrep") or 1), configPath=path)
     finally:
         os.unlink(path)
     return S
@@ -173,8 +173,20 @@ def _access(S, name):
     return np.asarray(v, dtype=float).tolist()
 
 
+def _table(S):
+    """every row of `.results` (Nrep > 1: one row per repetition), columns by label"""
+    try:
+        v = S.results
+        return [{k: _num(val) for k, val in row.items()} for row in v.to_dict(orient="records")]
+    except Exception as e:
+        return {"raise": core.exc_class(e)}
+
+
 def snapshot(S):
-    return {k: _access(S, k) for k in ("results", "time", "shelfTemp", "temp", "iceMassFraction")}
+    snap = {k: _access(S, k) for k in ("results", "time", "shelfTemp", "temp", "iceMassFraction")}
+    if getattr(S, "Nrep", 1) > 1:
+        snap["results_table"] = _table(S)
+    return snap
 
 
 def constants(S):
@@ -211,7 +223,10 @@ def run_real(case):
             try:
                 with warnings.catch_warnings():
                     warnings.simplefilter("ignore")
-                    S.run()
+                    if case.get("Nrep"):
+                        S.run(how=case.get("how", "sequential"))
+                    else:
+                        S.run()
                 rec["raise"] = None
             except Exception as e:
                 rec["raise"] = core.exc_class(e)
@@ -283,7 +298,7 @@ def decode_model(r):
 
 
 RUN_FIELDS = ("dim", "config", "height", "diameter", "yaml", "k_s0", "t_tot", "start", "stop", "rate", "holds",
-              "cnTemp", "Frand", "runs")
+              "cnTemp", "Frand", "runs", "Nrep", "how")
 
 
 def source_key(case):
@@ -423,3 +438,15 @@ def record_inputs(case):
         return {"raise": core.exc_class(e)}
     const, visf = constants(S)
     return {"raise": None, "const": const, "visf": visf, "xi": recorded_xi()}
+
+
+def stride_cases():
+    """fixed 1D programmes with more than 10 000 steps (save strides 3 and 4) that freeze completely – shared by
+    C08 (first crossing evaluated on EVERY step, not only on the recorded ones) and C13 (stride logic)"""
+    h = 0.02
+    dt = dt_1d_default(h)
+    out = []
+    for k, rate, fr, n in ((2000, 0.5, 0.3, 21000), (400, 0.5, 0.7, 24000), (2000, 0.5, 0.05, 31000)):
+        out.append(dict(dim="1D", config="shelf", height=h, k_s0=k, t_tot=n * dt, start=20, stop=-50, rate=rate,
+                        holds=None, cnTemp=None, Frand=fr, frkind="mid", kind="stride>1", row_stride=211))
+    return out
